@@ -380,6 +380,19 @@ def add_short_reference_stream(env, res=None, directory: str = 'cut') -> int:
     return spk
 
 
+def add_long_first_fragment_stream(env, res=None, directory: str = 'sy8') -> int:
+    """video whose first fragment lasts 1.68 x the others (an encoder that starts with a long GOP): the later
+    segments start more than half a nominal segment duration after their nominal start"""
+    from dlv.appenv import FIXTURES
+    fx = FIXTURES / 'bbb'
+    video = retime((fx / 'bbb_v7.mp4').read_bytes(), 90000, [6300] + [3750] * 9)
+    files = {'sy8_v1': video, 'sy8_a1': (fx / 'bbb_a1.mp4').read_bytes()}
+    spk = env.add_stream(directory, title='Synthetic: long first fragment', files=files)
+    if res is not None:
+        res.count('synthetic.streams')
+    return spk
+
+
 def add_retracked_video_stream(env, res=None, directory: str = 'vt5') -> int:
     """bbb with its video on track 5 (track ids only have to be unique within a stream): the video
     AdaptationSet of a manifest is numbered 1 whatever the track id is."""
